@@ -549,3 +549,59 @@ mod testing {
 
 	// TODO: test all methods, with array classes as well!
 }
+
+#[cfg(feature = "verif")]
+pub mod verif {
+	//! Verification hooks (feature `verif`): forwarding wrappers and constructors from explicit parts only.
+	use super::*;
+
+	/// # Safety
+	/// As [`super::map_desc`]: the harness decides what it passes.
+	pub unsafe fn map_desc(remapper: &(impl ARemapper + ?Sized), desc: &JavaStr) -> Result<JavaString> {
+		// SAFETY: forwarded to the caller.
+		unsafe { super::map_desc(remapper, desc) }
+	}
+
+	pub type MemberEntry<'a, Name, Desc> = ((&'a Name, Desc), (&'a Name, Desc));
+	pub struct ClassParts<'a> {
+		pub from: &'a ObjClassNameSlice,
+		pub to: &'a ObjClassName,
+		pub fields: Vec<MemberEntry<'a, FieldNameSlice, FieldDescriptor>>,
+		pub methods: Vec<MemberEntry<'a, MethodNameSlice, MethodDescriptor>>,
+	}
+
+	/// Builds a [`BRemapperImpl`] from explicit tables (what `Mappings::remapper_b` computes from a mapping tree).
+	pub fn b_remapper_from_parts<'a, 'i, const N: usize, I>(classes: Vec<ClassParts<'a>>, inheritance: &'i I) -> BRemapperImpl<'a, 'i, N, I> {
+		let mut map = IndexMap::new();
+		for class in classes {
+			let mut fields = IndexMap::new();
+			for ((name_from, desc_from), (name_to, desc_to)) in class.fields {
+				fields.insert(TupleKey(name_from, desc_from), TupleKey(name_to, desc_to));
+			}
+			let mut methods = IndexMap::new();
+			for ((name_from, desc_from), (name_to, desc_to)) in class.methods {
+				methods.insert(TupleKey(name_from, desc_from), TupleKey(name_to, desc_to));
+			}
+			map.insert(class.from, BRemapperClass { name: class.to, fields, methods });
+		}
+		BRemapperImpl { classes: map, inheritance }
+	}
+
+	/// Builds an [`ARemapperImpl`] from explicit pairs (what `Mappings::remapper_a` computes from a mapping tree).
+	pub fn a_remapper_from_parts<'a, const N: usize>(classes: Vec<(&'a ObjClassNameSlice, &'a ObjClassNameSlice)>) -> ARemapperImpl<'a, N> {
+		let mut map = IndexMap::new();
+		for (from, to) in classes {
+			map.insert(from, to);
+		}
+		ARemapperImpl { classes: map }
+	}
+
+	/// Hashes of a stored member key and of the request that must find it (for `Hash`/`Equivalent` consistency checks).
+	pub fn hash_key_and_request<H: Hasher + Clone>(hasher: &H, name: &FieldNameSlice, desc: FieldDescriptor) -> (u64, u64) {
+		let mut a = hasher.clone();
+		let mut b = hasher.clone();
+		TupleReq(name, desc.as_slice()).hash(&mut b);
+		TupleKey(name, desc).hash(&mut a);
+		(a.finish(), b.finish())
+	}
+}
